@@ -470,10 +470,15 @@ def correspondence(ctx):
                         opf = laplace.single_layer(dom, dual, dual, assembler="fmm")
                         sing = opf.descriptor.singular_part.weak_form().to_sparse()
                         yf = opf.weak_form() @ x - sing @ x
-                        yd = laplace.single_layer(dom, dual, dual, assembler="dense").weak_form() @ x - sing @ x
+                        y_full = laplace.single_layer(dom, dual, dual, assembler="dense").weak_form() @ x
+                        y_sing = sing @ x
+                        yd = y_full - y_sing
+                        # the regular part is a difference: its rounding error scales with the two terms, not with the
+                        # result (which is exactly zero when every test/trial element pair is adjacent)
+                        nat = max(float(np.linalg.norm(y_full)), float(np.linalg.norm(y_sing)))
                         st = "ok"
                     except ValueError:
-                        st, yf, yd = "value-error", None, None
+                        st, yf, yd, nat = "value-error", None, None, 0.0
                     PS = _point_cloud(gridS, lp)
                     PT = _point_cloud(gridT, lp)
                     for g_, P_ in ((gridS, PS), (gridT, PT)):
@@ -502,7 +507,7 @@ def correspondence(ctx):
                     blkS, _ = _space_block(dom, lp)
                     counts["mv_cases"] += 1
 
-                    def h4(ans, st=st, yf=yf, yd=yd, dual=dual, dom=dom, case=(gS, gT, labS, labT, order)):
+                    def h4(ans, st=st, yf=yf, yd=yd, dual=dual, dom=dom, case=(gS, gT, labS, labT, order), nat=nat):
                         t = ans.split()
                         if t[0] != "ok":
                             res.disagree("matvec model status", case=case, model=ans[:40])
@@ -518,7 +523,7 @@ def correspondence(ctx):
                             if MODEL_VARIANT == "patched" or (_is_prefix(dom) and _is_prefix(dual)):
                                 res.disagree("FMM matvec raises", case=case, impl=st)
                             return
-                        sc = max(1e-300, float(np.linalg.norm(md)))
+                        sc = max(1e-300, float(np.linalg.norm(md)), nat)
                         e1 = float(np.linalg.norm(yf - mf)) / sc
                         e2 = float(np.linalg.norm(yd - md)) / sc
                         worst["mv_fmm"] = max(worst["mv_fmm"], e1)
